@@ -1,13 +1,13 @@
 //! LruTimeCache (src/lru_time_cache.rs) — binding for spec/LruTimeCache.tla.
-//! One model tick = 1000 ms of virtual time (hook `verif_age`); the real ttl is
-//! `ttl * 1000 + 500` ms so that the microseconds of real time a run takes never decide expiry.
+//! One model tick = 700 ms of virtual time (hook `verif_age`); the real ttl is
+//! `ttl * 700 + 350` ms so that the microseconds of real time a run takes never decide expiry.
 use crate::util::{self, Out};
 use discv5::verif::LruTimeCache;
 use rand::{rngs::StdRng, Rng, SeedableRng};
 use serde_json::{json, Value};
 use std::time::Duration;
 
-const TICK_MS: u64 = 1000;
+const TICK_MS: u64 = 700; // deliberately no whole number of seconds: expiry must be exact to the millisecond, not to the second
 
 struct Sut {
     c: LruTimeCache<u32, u32>,
